@@ -95,12 +95,12 @@ def build(case):
         rows, tags = [tuple(r) for r in case["table"]], case["tags"]
         prompts, moves = custom_device_spec(rows, tags)
         dev = PrivDevice("custom", login_mode=case["login"], enable_password=case["dpw"], refuse=refuse, ignore=ignore,
-                         pw_limit=case["pwl"], prompts=prompts, moves=moves)
+                         pw_limit=case["pwl"], prompts=prompts, moves=moves, fail_lines=set(case.get("fail", [])))
         root = next((n for n, p, *_ in rows if not p), rows[0][0])
         kw = dict(privilege_levels=custom_levels(rows, tags), default_desired_privilege_level=root)
         return "network", dev, kw
     dev = PrivDevice(case["platform"], login_mode=case["login"], enable_password=case["dpw"], refuse=refuse, ignore=ignore,
-                     pw_limit=case["pwl"])
+                     pw_limit=case["pwl"], fail_lines=set(case.get("fail", [])))
     return case["platform"], dev, {}
 
 
@@ -141,7 +141,7 @@ def request(case, obs):
         c = ctx(case["platform"])
         rows, default, abort, sess = c["rows"], c["default"], c["abort"], c["sess"]
     sessions = [o[1] for o in case["ops"] if o[0] == "R"]
-    return encode_request(rows, default, case["sec"], abort, sess, {tuple(k) for k, _ in case["blocked"]}, case["dpw"], case["pwl"], [],
+    return encode_request(rows, default, case["sec"], abort, sess, {tuple(k) for k, _ in case["blocked"]}, case["dpw"], case["pwl"], list(case.get("fail", [])),
                           device_extras(dev, rows, sessions), case["login"], obs["snaps"], [tuple(o) for o in case["ops"]])
 
 
@@ -175,10 +175,10 @@ def oracle(case, obs):
         rounds = rec["rounds"] - prev["rounds"]
         prev = rec
         tag = f"op {i} acquire_priv({b!r}) from {m0!r}: "
-        hazard = any(bel == "DUMMY" and mode != b and key.get(mode) is not None and key.get(mode) == key.get(b) for bel, mode in probes)
+        hazard = any(bel == "DUMMY" and mode != b and key.get(mode) is not None and key.get(mode) == key.get(b) for bel, mode, *_ in probes)
         # belief unknown while the device sits in a level that shares its prompt: after a refused transition the driver may take
         # the device for a sibling (first match) and type that sibling's command; the call still has to fail within the bound
-        ambiguous = any(bel == "DUMMY" and sum(1 for r in rows if r[5] == key.get(mode)) > 1 for bel, mode in probes)
+        ambiguous = any(bel == "DUMMY" and sum(1 for r in rows if r[5] == key.get(mode)) > 1 for bel, mode, *_ in probes)
         flags = {"hazard": hazard}
         if rec["out"] in BAD or rec["out"].startswith("EXC:"):
             out.append((tag + f"ended with {rec['out']} (not a scrapli privilege / authentication / timeout error)", flags))
